@@ -43,7 +43,8 @@ def cases(tier, seed=0):
       for si, st in enumerate(EC.covering_pair_states(("Zr", "Cu", "Al"), seed=2)[:5]):
         cs.append(Case("api %s Zr/Cu/Al cover%d" % (target, si), api_case, target=target, elements=("Zr", "Cu", "Al"), pairs=st,
                        nr=2, nrho=3, route="class", rot=si))
-    for m, tgt in (("eam_basic", "DL_POLY_EAM"), ("eam_undeclared", "DL_POLY_EAM"), ("fs_basic", "DL_POLY_EAM_fs"), ("fs_three", "DL_POLY_EAM_fs")):
+    for m, tgt in (("eam_basic", "DL_POLY_EAM"), ("eam_undeclared", "DL_POLY_EAM"), ("fs_basic", "DL_POLY_EAM_fs"), ("fs_three", "DL_POLY_EAM_fs"),
+                   ("eam_multirange", "DL_POLY_EAM"), ("fs_multirange", "DL_POLY_EAM_fs")):
       cs.append(Case("potable %s %s" % (m, tgt), EP.potable_case, model_name=m, target=tgt, nr=3, nrho=5))
   else:
     grids = [(2, 2), (3, 4), (4, 5), (5, 8), (6, 3), (7, 9), (8, 2), (9, 6)]
